@@ -30,6 +30,8 @@ func init() {
 			{ID: "C05-R4", Title: "the front end keeps no package-level state written after initialisation", Floor: 3, Run: c05r4},
 			{ID: "C05-R5", Title: "comparison functions are lexicographic where they compare two keys", Floor: 1, Run: lexicographicBoth},
 			{ID: "C05-R6", Title: "script values are not rendered with fmt's default formatting", Floor: 1, Run: sprintOfObjects},
+			{ID: "C05-R7", Title: "module constructors hand out fresh objects: no state shared between evaluations (shared with C11-R2)", Floor: 10, Run: c11r2},
+			{ID: "C05-R8", Title: "collected map keys are sorted at once", Floor: 1, Run: collectedMapKeysAreSorted},
 		},
 	})
 }
